@@ -9,7 +9,7 @@ ASSUMPTIONS = [
     "values are opaque tokens; task bodies have no side effects besides the harness record",
     "exhaustive only within the alphabet and bounds listed in coverage.bounds",
 ]
-MENU = ["ins:raise", "item:err", "item:unset", "flush:raise", "flush:raiseB", "flush:setraise", "leaf:ef", "leaf:lzok", "leaf:lzraise", "leaf:nf", "wrap:try", "shape:T", "shape:D", "shape:nest", "leaf:sh"]
+MENU = ["ins:raise", "ins:caught", "item:err", "item:errf", "item:unset", "flush:raise", "flush:raiseB", "flush:setraise", "leaf:ef", "leaf:lzok", "leaf:lzraise", "leaf:nf", "wrap:try", "shape:T", "shape:D", "shape:nest", "leaf:sh"]
 CATS = ["outcome-mismatch", "error-identity", "resumed-uncomputed", "nonfuture-typeerror", "spurious-error", "schedule-disagree", "value-shape", "started-missing", "hang", "worker-died"]
 LADDER = {"quick": [(4, 1, ["call"]), (3, 2, ["call", "av"]), (2, 3, ["call"])], "thorough": [(5, 1, ["call"]), (4, 2, ["call", "av"]), (3, 3, ["call"])]}
 SPEC = {"r1": True, "r2": True}
